@@ -18,7 +18,7 @@ RULE = ("(A) pairs of plain trees with overlapping and disjoint keys at depth <=
         "equal load_tree(model-merged tree) into a fresh configuration, and unresolved includes must fail; "
         "non-trivial = merge pair with an overlapping key, or a file case with >= 1 include processed; distinct = "
         "distinct case content")
-REQUIRED = ("file_cases_with_format_options", "reloads_after_include_files_rewritten", "startdir_form:rel", "startdir_form:home", "nested_schema_declared_before_includes", "merge_pairs_compared", "merge_purity_checks", "file_cases_compared", "file_cases_nested_include",
+REQUIRED = ("file_cases_env_bound_include_fields", "file_cases_tilde_below_startdir", "file_cases_with_format_options", "reloads_after_include_files_rewritten", "startdir_form:rel", "startdir_form:home", "nested_schema_declared_before_includes", "merge_pairs_compared", "merge_purity_checks", "file_cases_compared", "file_cases_nested_include",
             "file_cases_chain", "file_cases_unresolvable_rejected", "file_cases_relative_startdir")
 ASSUMPTIONS = ["documents and include files are produced with the library's own codecs (decided by C04)",
                "the merged tree keeps the include key; included files naming an already processed include field of the "
@@ -77,6 +77,8 @@ def generate(rng, ctx):
     layout = {"root_inc": rng.choice([0, 1, 1, 2]), "sub_inc": rng.random() < 0.6, "deep_inc": rng.random() < 0.4,
               "startdir_root": rng.choice([None, "inc"]), "startdir_sub": rng.choice([None, "inc", "other"]),
               "dynamic_sub": rng.random() < 0.3,
+              # the schema has an environment prefix and the variables of some include fields name an existing decoy file
+              "env_inc": rng.random() < 0.2,
               # the nested schema may be declared before the scope's own include fields; start directories may be given
               # absolute, relative to the working directory at load time, or relative to the home directory
               "sub_first": rng.random() < 0.5, "startdir_form": rng.choice(["abs", "abs", "rel", "home"])}
@@ -92,6 +94,9 @@ def generate(rng, ctx):
         if how == "dir":
             return "$DIR/inc", how
         fname = "%s.cfg" % name
+        if how == "rel" and startdir and rng.random() < 0.3:
+            fname = "~/" + fname  # below a start directory "~" is an ordinary directory name
+            layout["tilde_names"] = True
         files[os.path.normpath(os.path.join(d, fname))] = tree
         if how == "rel":
             return fname, how
@@ -208,7 +213,7 @@ def _real_startdir(layout, d, name):
 
 
 def _schema(cc, layout, d):
-    root = cc.Schema()
+    root = cc.Schema(env="VFC18E") if layout.get("env_inc") else cc.Schema()
     root.a = cc.IntField()
     root.b = cc.StringField()
     root.data = cc.DictField()
@@ -321,13 +326,29 @@ def run_files(case, ctx, res):
                 os.makedirs(os.path.dirname(real2), exist_ok=True)
                 with open(real2, "wb") as fp:
                     fp.write(codec.dumps(dummy, tree))
+            os.makedirs(os.path.dirname(real), exist_ok=True)
             with open(real, "wb") as fp:
                 fp.write(codec.dumps(dummy, tree))
 
     case = dict(case, _write_all=write_all)
+    if layout.get("env_inc"):
+        if any(k.startswith("VFC18E") for k in os.environ):
+            return
+        decoy = os.path.join(d, "decoy.cfg")
+        try:
+            with open(decoy, "wb") as fp:
+                fp.write(codec.dumps(dummy, {"a": 777, "b": "decoy", "sub": {"a": 778}}))
+        except Exception:
+            return
+        for name in (["VFC18E_INC0"] + (["VFC18E_INC1"] if len(d) % 2 else []) + (["VFC18E_SUB_INC"] if len(d) % 3 else [])):
+            os.environ[name] = decoy
+        res.count("file_cases_env_bound_include_fields")
+    if layout.get("tilde_names"):
+        res.count("file_cases_tilde_below_startdir")
     try:
         for rel, tree in files.items():
             real = os.path.join(d, rel)
+            os.makedirs(os.path.dirname(real), exist_ok=True)
             top = rel.split(os.sep)[0]
             if layout.get("startdir_form") == "home" and top in ("inc", "other") and (
                     top == layout["startdir_root"] or top == layout["startdir_sub"]):
